@@ -148,6 +148,21 @@ def run_table(res, tier, seed, shard):
         res.count("non_checkpoint_heights")
         if not verdict(h, cid):
             res.fail("checkpoint", "free-height-refused", "height %d is not checkpointed but a candidate was refused below the horizon" % h, {"height": h, "id": cid.hex(), "free": True})
+        # stepping over: a candidate whose stored parent is NOT at height h-1 would let a history jump past checkpointed heights
+        # without ever being compared with one (the rule repaired in /repo b7ec09c)
+        if h >= 2 and verdict(h, cid, "genesis"):
+            res.fail("checkpoint", "height-not-parent+1-accepted:parent-genesis", "a child of the genesis block claiming height %d was accepted below the horizon: a history can step over every checkpoint before %d" % (h, h),
+                     {"height": h, "id": cid.hex(), "free": True, "parent": "genesis"})
+        res.count("step_over_candidates")
+        if cid[0] % 8 == 0 and h + 1 not in table and h >= 2:
+            dcs, tiph = state_with_parent_at(h)                 # tip at height h-1; the candidate claims h+1
+            try:
+                C.validate_block_in_coinstate(candidate(D, S, h + 1, cid, tiph), dcs)
+                res.fail("checkpoint", "height-not-parent+1-accepted:parent-deep", "a child of a block at height %d claiming height %d was accepted below the horizon" % (h - 1, h + 1),
+                         {"height": h + 1, "id": cid.hex(), "free": True, "parent": "h-2"})
+            except Exception:
+                pass
+            res.count("step_over_candidates")
 
     free()
     res.exhaustive = True
